@@ -530,6 +530,18 @@ func (s *Module) AddBlock(block *block.Block) error {
 	if !block.Hash().Equals(expectedH) {
 		return fmt.Errorf("invalid block: hash mismatch: expected %s, got %s", expectedH, block.Hash().StringLE())
 	}
+	if !s.bc.GetConfig().SkipBlockVerification {
+		// Witness is not covered by the hash, but the header is already known
+		// (and verified), so the block must carry the very same witness.
+		hdr, err := s.bc.GetHeader(expectedH)
+		if err != nil {
+			return fmt.Errorf("failed to get header %d: %w", block.Index, err)
+		}
+		if !bytes.Equal(hdr.Script.InvocationScript, block.Script.InvocationScript) ||
+			!bytes.Equal(hdr.Script.VerificationScript, block.Script.VerificationScript) {
+			return errors.New("invalid block: witness differs from the one of the known header")
+		}
+	}
 	cache := s.dao.GetPrivate()
 	if err := cache.StoreAsBlock(block, nil, nil); err != nil {
 		return err
